@@ -44,14 +44,20 @@ def run(tier, seed):
                 a, b = d.get((ka, fa, "clean")), d.get((kb, fb, "clean"))
                 if a and b:
                     recs.append({"prop": "C07r", "in": allcases[ci], "a": a, "b": b})
+    # error propagation through the conversion of a bare #[parent] member's own type (a swallowed `?` in the post-init call shows here)
+    from checks import parent_stream as ps
+    pcases, pobs, pfail, pstats = ps.run_stream(ctx, tier)
+    precs = ps.records(pcases, pobs, pfail, {"poison", "leaf"})     # every flavour against the specification, which designates the same values for all
+    pok = ps.judge_into(ctx, pcases, precs, "c07-parent")
+    ctx.cov["parent_stream_poison_vectors"] = len(precs)
     ok, mism, st = core.judge("Trace_Struct", recs, tag="c07")
     ctx.add_tlc(st)
     for m in mism:
         cell = dict(m["cell"])
         items = sorted(cell.pop("items"))
         ctx.violation(cell, m["symptom"], {"case": m["case"], "input": allcases[m["case"]], "items": items, "report": m, "program": ss.src_of(m["case"], allcases[m["case"]])[:6000]})
-    ctx.cov["evaluations"] = len(recs)
-    ctx.cov["traces_validated_against_impl"] = ok
+    ctx.cov["evaluations"] = len(recs) + len(precs)
+    ctx.cov["traces_validated_against_impl"] = ok + pok
     ctx.cov["programs"] = nprog
     ctx.cov["programs_compiled"] = ncomp
     ctx.cov["poison_vectors"] = sum(1 for r in recs if r["prop"] == "C07p")
